@@ -1,0 +1,142 @@
+//! C15 — scripted TCP connector for `client::tls::dial_happy_eyeballs`.
+//!
+//! The per-address connect future of `dial_happy_eyeballs` contains one added,
+//! feature-guarded statement `use crate::verif_hooks::c15::TcpStream;`, which
+//! makes the existing line `TcpStream::connect(addr)` resolve to
+//! [`TcpStream::connect`] below. Without an installed [`Script`] (or for an
+//! address the script does not mention) this is `tokio::net::TcpStream::connect`.
+//! With a script, the attempt is logged and the scripted outcome is played:
+//! success after a latency (handing out a pre-connected loopback stream owned
+//! by the harness), an I/O error after a latency, or never completing.
+//!
+//! [`Dialer::dial`] (its `impl` sits next to the private function in
+//! `client/tls.rs`) is the accessor the harness calls.
+use std::{
+    collections::HashMap,
+    io,
+    net::{IpAddr, SocketAddr},
+    sync::Mutex,
+    time::Duration,
+};
+
+/// What a scripted connection attempt does.
+#[derive(Debug, Clone, Copy, PartialEq, Eq)]
+pub enum Outcome {
+    /// Connects after the latency.
+    Connect(Duration),
+    /// Fails with `ConnectionRefused` after the latency.
+    Refuse(Duration),
+    /// Never completes.
+    Hang,
+}
+
+/// The installed script.
+pub struct Script {
+    /// Attempt times are reported relative to this instant (tokio clock).
+    pub start: tokio::time::Instant,
+    pub outcomes: HashMap<IpAddr, Outcome>,
+    /// Pre-connected streams handed out on scripted success.
+    pub pool: Vec<tokio::net::TcpStream>,
+}
+
+/// What happened while the script was installed.
+#[derive(Debug, Default, Clone)]
+pub struct Report {
+    /// `(time since start, address)` of every connection attempt, in order.
+    pub attempts: Vec<(Duration, SocketAddr)>,
+    /// `(time since start, address, local port of the stream handed out)`.
+    pub connected: Vec<(Duration, SocketAddr, u16)>,
+}
+
+struct Active {
+    script: Script,
+    report: Report,
+}
+
+static ACTIVE: Mutex<Option<Active>> = Mutex::new(None);
+
+/// Installs a script (replacing any previous one).
+pub fn install(script: Script) {
+    *ACTIVE.lock().unwrap() = Some(Active {
+        script,
+        report: Report::default(),
+    });
+}
+
+/// Removes the script and returns the report.
+pub fn uninstall() -> Report {
+    ACTIVE
+        .lock()
+        .unwrap()
+        .take()
+        .map(|a| a.report)
+        .unwrap_or_default()
+}
+
+/// Stand-in for `tokio::net::TcpStream` in the connect future (only `connect`).
+pub struct TcpStream;
+
+impl TcpStream {
+    pub async fn connect(addr: SocketAddr) -> io::Result<tokio::net::TcpStream> {
+        let plan = {
+            let mut g = ACTIVE.lock().unwrap();
+            match g.as_mut() {
+                Some(a) => match a.script.outcomes.get(&addr.ip()).copied() {
+                    Some(o) => {
+                        let t = tokio::time::Instant::now() - a.script.start;
+                        a.report.attempts.push((t, addr));
+                        Some(o)
+                    }
+                    None => None,
+                },
+                None => None,
+            }
+        };
+        match plan {
+            None => tokio::net::TcpStream::connect(addr).await,
+            Some(Outcome::Hang) => std::future::pending().await,
+            Some(Outcome::Refuse(lat)) => {
+                if !lat.is_zero() {
+                    tokio::time::sleep(lat).await;
+                }
+                Err(io::Error::new(
+                    io::ErrorKind::ConnectionRefused,
+                    "scripted refusal",
+                ))
+            }
+            Some(Outcome::Connect(lat)) => {
+                if !lat.is_zero() {
+                    tokio::time::sleep(lat).await;
+                }
+                let mut g = ACTIVE.lock().unwrap();
+                let a = g
+                    .as_mut()
+                    .ok_or_else(|| io::Error::other("script removed"))?;
+                let stream = a
+                    .script
+                    .pool
+                    .pop()
+                    .ok_or_else(|| io::Error::other("stream pool exhausted"))?;
+                let t = tokio::time::Instant::now() - a.script.start;
+                let port = stream.local_addr()?.port();
+                a.report.connected.push((t, addr, port));
+                Ok(stream)
+            }
+        }
+    }
+}
+
+/// Accessor for the private `dial_happy_eyeballs`; `Dialer::dial` is implemented
+/// in `client/tls.rs`.
+pub struct Dialer;
+
+/// The three constants the dial loop uses, as compiled.
+pub fn consts() -> [(&'static str, Duration); 4] {
+    use crate::defaults::timeouts::*;
+    [
+        ("RESOLUTION_DELAY", RESOLUTION_DELAY),
+        ("CONNECTION_ATTEMPT_DELAY", CONNECTION_ATTEMPT_DELAY),
+        ("DIAL_ENDPOINT_TIMEOUT", DIAL_ENDPOINT_TIMEOUT),
+        ("DNS_TIMEOUT", DNS_TIMEOUT),
+    ]
+}
